@@ -223,6 +223,14 @@ def fold(eng, ver, name):
                 eng.facts.used.add("L12-count")
                 eng.facts.add(z3.Implies(oval, z3.And(cnt >= 0, cnt <= fold(eng, ver, "size") if name != "size" else True,
                                                       bd == z3.RealVal(FOLDS[other].const) * z3.ToReal(cnt))))
+    if name.startswith("ancbelow@"):
+        # monotone in the bound (same version): below n and n <= m  ==>  below m
+        n_ = F.param
+        for other, oval in list(ver.cache.items()):
+            if other != name and other.startswith("ancbelow@"):
+                m_ = FOLDS[other].param
+                eng.facts.add(z3.Implies(z3.And(oval, m_ <= n_), r))
+                eng.facts.add(z3.Implies(z3.And(r, n_ <= m_), oval))
     # congruence: dict versions asserted (conditionally) equal have equal folds
     for (va, vb, cond) in getattr(eng, "store_eqs", ()):
         other = vb if va is ver else (va if vb is ver else None)
@@ -240,6 +248,17 @@ def assert_same(eng, va, vb, cond):
         if name.startswith("within@"):
             continue
         eng.facts.add(z3.Implies(cond, fold(eng, va, name) == fold(eng, vb, name)))
+
+
+def ancbelow_fold(eng, n):
+    """parametric all-fold: no key of the dict mentions an ancilla name '__a<j>' with j >= n"""
+    eng.facts.enable_anc()
+    name = "ancbelow@%d" % n.get_id()
+    if name not in FOLDS:
+        F = Fold(name, "all", T.Bool, lambda e, k, v, n=n: T.KEYANC(e.facts.key(k)) <= n, T.Key)
+        F.param = n
+        FOLDS[name] = F
+    return name
 
 
 def valseq_fold(c):
